@@ -12,6 +12,61 @@ def run(ctx):
     p_c07.run_focus(ctx, "C09", 58, 508)
     event_loop_block(ctx, 30, 300)
     infinite_target_block(ctx)
+    changed_flags_block(ctx)
+
+
+def changed_flags_block(ctx):
+    """the SAME event objects passed to consecutive calls on one system, with `is_terminal` / `direction` changed in between: each call
+    treats the events as they are flagged when it is made (first count crossings, then stop at the next one; or the other way round)"""
+    import numpy as _np
+    from impl import de, I
+    for name in ["RK4Solver", "RK45CKSolver", "DOPRI45"]:
+        for sign in (1.0, -1.0):
+            for variant in ("becomes-terminal", "no-longer-terminal", "direction-changed"):
+                e1 = eventsim.make_event("y0", 0.3)
+                e2 = eventsim.make_event("y0", -0.5)
+                inp = dict(kind="changed-flags", method=name, direction_of_time=sign, variant=variant)
+                ode = de.OdeSystem(eventsim.harmonic, y0=_np.array([1.0, 0.0]), t=(0.0, sign * 12.0), dt=0.05, rtol=1e-9, atol=1e-11, dense_output=True)
+                ode.set_method(getattr(I, name))
+                nb = [0]
+
+                def budget(o, nb=nb):
+                    nb[0] += 1
+                    if nb[0] > 50000:
+                        raise RuntimeError("step budget exceeded")
+                try:
+                    if variant == "becomes-terminal":
+                        # cos(t) = 0.3 at 1.266, 5.017, 7.549, 11.30 (2 pi - arccos 0.3 = 5.017082); cos(t) = -0.5 at 2.094, 4.189, 8.378, 10.47
+                        ode.integrate(sign * 3.0, events=[e1, e2], callback=[budget])
+                        n1 = len(ode.events)
+                        e1.is_terminal = True
+                        ode.integrate(sign * 12.0, events=[e1, e2], callback=[budget])
+                        want_t, want_status = float(2 * _np.pi - _np.arccos(0.3)), True
+                        ok_first = n1 == 2
+                    elif variant == "no-longer-terminal":
+                        e2.is_terminal = True
+                        ode.integrate(sign * 12.0, events=[e1, e2], callback=[budget])
+                        ok_first = abs(abs(float(ode.t[-1])) - 2.0943951) < 1e-4
+                        e2.is_terminal = False
+                        e1.is_terminal = True
+                        ode.integrate(sign * 12.0, events=[e1, e2], callback=[budget])
+                        want_t, want_status = float(2 * _np.pi - _np.arccos(0.3)), True
+                    else:
+                        # direction of the crossing: y0 = cos falls through 0.3 at 1.266 (forward in time), rises through it at 5.017
+                        e1.is_terminal = True
+                        e1.direction = 1      # rising ALONG THE INTEGRATION: the first crossing (falling) is skipped in either direction of time
+                        ode.integrate(sign * 3.0, events=[e1, e2], callback=[budget])
+                        ok_first = abs(abs(float(ode.t[-1])) - 3.0) < 1e-9
+                        e1.direction = 0
+                        ode.integrate(sign * 12.0, events=[e1, e2], callback=[budget])
+                        want_t, want_status = float(2 * _np.pi - _np.arccos(0.3)), True
+                    t_end = abs(float(ode.t[-1]))
+                    stopped = "event" in str(ode.integration_status).lower() or getattr(ode, "success", False) and t_end < 11.9
+                    ctx.oracle("flags-read-when-the-call-is-made", ok_first and abs(t_end - want_t) < 1e-4, dict(inp, first_call_ok=ok_first, t_end=t_end, expected=want_t, status=str(ode.integration_status)),
+                               key="event-flags-stale", what="%s: the second call ended at |t| = %.6f (expected the stop at %.6f), first call as expected: %s" % (variant, t_end, want_t, ok_first))
+                except Exception as e:
+                    ctx.oracle("changed-flags-scenario-runs", False, inp, what="raised %r" % (e,))
+                ctx.count("changed-flags:" + variant)
 
 
 def infinite_target_block(ctx):
